@@ -7,32 +7,27 @@ IO = {"evread", "evwrite", "sfwrite"}
 SHAPE = {"add", "prepend", "addref", "addfile", "rmbuf", "drain"}
 
 
-def sf_key(h, k, msg):
-    s = h[k] if 0 <= k < len(h) else None
-    if s and s["a"] == "sfwrite" and s["n"] >= 0 and (".r:" in msg or ".w:" in msg or ".rest:" in msg):
-        return "sendfile-ignores-howmuch"
-    return None
-
-
 def run(tier, seed):
     q = tier == "quick"
     gen = [
         # every 2-call history of read/write with every script (short result, EINTR, EAGAIN, ECONNRESET/EPIPE)
-        dict(name="C16_exh_rw", consts=ec.consts({"evread", "evwrite"}, 2, wa=37, wb=331, data=("a", "bLa"), nsel=(1, 2, 9) if q else (0, 1, 2, 9))),
-        # every sendfile write (offset, howmuch, script) on a DRAINS_TO_FD buffer
+        dict(name="C16_exh_rw", consts=ec.consts({"evread", "evwrite"}, 2, wa=37, wb=331, data=("bLa",) if q else ("a", "bLa"), nsel=(1, 9) if q else (0, 1, 2, 9))),
+        # every sendfile write (offset, howmuch, script) on a DRAINS_TO_FD buffer, incl. howmuch < segment length with an
+        # unlimited system call (fixed finding d2d0371: exactly min(howmuch, k) bytes must move)
         dict(name="C16_exh_sf", consts=ec.consts({"sfwrite"}, 1, wa=1021, wb=4099, nsel=(0,))),
+        dict(name="C16_exh_sf2", consts=ec.consts({"sfwrite"}, 1, wa=37, wb=331, nsel=(0,))),
         # buffer shapes: 3 forced adds (separate chains with big widths) then shape ops, then I/O
-        dict(name="C16_shapes", consts=ec.consts(SHAPE | {"evwrite", "evread"}, 5, wa=509, wb=2048, data=("a", "bLa"), nsel=(1, 2, 9), warm=3),
-             stride=6 if q else 1),
+        (dict(name="C16_shapes", consts=ec.consts({"add", "prepend", "addref", "evwrite"}, 4, wa=509, wb=2048, data=("a", "bLa"), nsel=(1, 2, 9), warm=3))
+         if q else
+         dict(name="C16_shapes", consts=ec.consts(SHAPE | {"evwrite", "evread"}, 5, wa=509, wb=2048, data=("a", "bLa"), nsel=(1, 2, 9), warm=3), stride=4)),
     ]
     for (wa, wb) in ([(37, 331)] if q else [(1, 1), (37, 331), (331, 37), (509, 1021)]):
         gen.append(dict(name="C16_rand_%d_%d" % (wa, wb),
                         consts=ec.consts(ec.C12_ACTS | IO | ec.CB_ACTS, 18 if q else 30, wa=wa, wb=wb, data=("", "a", "b", "aCL", "bLa"),
                                          nsel=(0, 1, 2, 3, 9), sizes=(0, 2000), maxlen=8, cbmode=1),
-                        simulate=15 if q else 60, depth=90))
-    gen.append(dict(name="C16_known_sfhm", consts=ec.consts({"sfwrite", "sfhm"}, 1, wa=37, wb=331, nsel=(0,)), key_fn=sf_key))
+                        simulate=8 if q else 60, depth=90))
     plan = {
-        "mc": [("C16_mc", ec.consts(IO | {"add", "drain", "freeze", "unfreeze"}, 3, wa=2, wb=3, data=("a", "aCL"), nsel=(0, 1, 9), sizes=(0,)))],
+        "mc": [("C16_mc", ec.consts(IO | {"add", "drain", "freeze", "unfreeze"}, 2 if q else 3, wa=2, wb=3, data=("a", "aCL"), nsel=(0, 1, 9), sizes=(0,)))],
         "gen": gen,
         "need_ops": ["evread", "evwrite", "sfwrite", "addref", "addfile"],
         "rule": "evbuffer_read / evbuffer_write / evbuffer_write_atmost run on a socketpair whose read/readv/write/writev/sendfile "
@@ -42,6 +37,7 @@ def run(tier, seed):
                 "after every call. Buffers are shaped by add/prepend/add_reference/add_file_segment(mmap,read)/remove_buffer "
                 "(many chains), a sendfile segment is written from a DRAINS_TO_FD buffer. TLC decides CountsExact (read "
                 "conserves socket+buffer, r <= howmuch, r <= what the system call moved) and FailureUnchanged on the model.",
+        "need_hist": {"C16_exh_sf2": lambda h: h[0]["a"] == "sfwrite" and h[0]["e"] == 0 and h[0]["k"] < 0 and 0 < h[0]["hm"] < h[0]["o"]["rest"] + h[0]["o"]["r"]},
         "assumptions": ["at most 4096 bytes wait in the socket (evbuffer_read's default max_read)",
                         "fewer than 128 chains per buffer (one writev)",
                         "writing an empty buffer / howmuch 0 returns -1 without a system call (named deviation)"],
